@@ -30,13 +30,16 @@ pub fn pattern(p: &mut Parser) -> Option<MarkerClosed> {
 }
 
 fn simple_pattern(p: &mut Parser) -> Option<MarkerClosed> {
-    if !p.at_any(PATTERN_FIRST) {
+    // one look decides both the first-set test and the dispatch below: a second `peek` may be
+    // answered `eof` (fuel spent by the first) and would reach `unreachable!()`
+    let kind = p.peek();
+    if !PATTERN_FIRST.contains(&kind) {
         let m = p.open();
         p.error("expected a pattern");
         p.close(m, MySyntaxKind::ErrorTree);
         return None;
     }
-    Some(match p.peek() {
+    Some(match kind {
         T![true] | T![false] => {
             let m = p.open();
             p.advance();
@@ -148,7 +151,7 @@ fn simple_pattern(p: &mut Parser) -> Option<MarkerClosed> {
 }
 
 fn struct_pattern_field_list(p: &mut Parser) {
-    assert!(p.at(T!['{']));
+    assert!(p.at_current(T!['{']));
     let m = p.open();
     p.expect(T!['{']);
     while !p.eof() && !p.at(T!['}']) {
@@ -164,7 +167,7 @@ fn struct_pattern_field_list(p: &mut Parser) {
 }
 
 fn struct_pattern_field(p: &mut Parser) {
-    assert!(p.at(T![ident]));
+    assert!(p.at_current(T![ident]));
     let m = p.open();
     p.expect(T![ident]);
     if p.at(T![:]) {
